@@ -1,27 +1,26 @@
 //@ tu: libxcm/core/attr_tree.c libxcm/core/attr_node.c libxcm/core/attr_path.c
 //@ nondfcc: 1
 //@ bounded: debug
-//@ flags: --unwind 9 --memory-leak-check --object-bits 10
+//@ flags: --unwind 9 --object-bits 10 --no-propagation
 //@ props: C10
 //@ timeout: 900
 #include "_tree.h"
 void harness(void)
 {
     xv_ghost_havoc(); ATR_GHOST_HAVOC();
-    struct attr_tree *tree = tb_build();
-    const char *q = "a";
-    int who = tb_resolve(q);
-    XV_ASSERT(who == 0, "who");
-    size_t cap = 8;
-    uint8_t *buf = malloc(cap);
-    __CPROVER_assume(buf != NULL);
-    enum xcm_attr_type t = 0;
-    int rv = attr_tree_get_value(tree, q, &t, buf, cap, NULL);
-    XV_ASSERT(tb_bad_ctx == 0, "badctx");
-    XV_ASSERT(tb_get_total <= 1 , "total");
-    XV_ASSERT(tb_get_total == (tb_has_get[who] ? 1 : 0), "reach1");
-    XV_ASSERT(tb_get_calls[who] == tb_get_total, "reach2");
-    XV_ASSERT(rv != -1 || errno != ENOENT, "not enoent");
-    free(buf);
-    attr_tree_destroy(tree);
+    struct attr_tree *tree = attr_tree_create();
+    XV_ASSERT(tree->root != NULL && tree->root->type == attr_node_type_dict, "root dict");
+    XV_ASSERT(TAILQ_FIRST(&tree->root->dict) == NULL, "empty");
+    XV_ASSERT(tree->root->dict.tqh_last == &tree->root->dict.tqh_first, "last0");
+    struct attr_node *v = attr_node_value(NULL, NULL, xcm_attr_type_bool, NULL, tb_getter);
+    XV_ASSERT(v->type == attr_node_type_value, "v type");
+    attr_node_dict_add_key(tree->root, "a", v);
+    XV_ASSERT(tree->root->dict.tqh_last != &tree->root->dict.tqh_first, "last1");
+    XV_ASSERT(tree->root->type == attr_node_type_dict, "still dict");
+    struct attr_node_dict_elem *e0 = TAILQ_FIRST(&tree->root->dict);
+    XV_ASSERT(e0 != NULL, "e0");
+    XV_ASSERT(e0 != NULL && e0->key[0] == 'a', "k0");
+    XV_ASSERT(e0 != NULL && e0->node == v, "n0");
+    attr_tree_add_value_node(tree, "x", NULL, NULL, xcm_attr_type_bool, NULL, tb_getter);
+    XV_ASSERT(attr_node_dict_size(tree->root) == 2, "size2");
 }
